@@ -1100,6 +1100,19 @@ def lifecycle_cases(quick, seed):
                 k += 1
                 cases.append({"id": "m%d_mmap_oldies_seq%d_l%d_o%dn%d" % (k, int(sequential), limit, len(old), len(new)), "fam": "multi", "chan": "mmap", "kind": "fut_fallible", "limit": limit, "listeners": 2,
                               "events": new, "old_events": old, "fails": [], "mode": "oldies", "sequential": sequential, "runtime": "current"})
+    # streams / listeners that end well apart from each other while close is waiting (limit 1, one event in flight per pipeline):
+    # whichever order they finish in, close returns only after the last one
+    for chan in MULTI_CHANS:
+        for listeners, order in ((2, [0, 1]), (2, [1, 0]), (3, [0, 2, 1]), (3, [1, 0, 2]), (3, [2, 1, 0])):
+            k += 1
+            cases.append({"id": "m%d_%s_L%d_stagger%s" % (k, chan, listeners, "".join(map(str, order))), "fam": "multi", "chan": chan, "kind": "fut_fallible", "limit": 1, "listeners": listeners,
+                          "events": [11], "old_events": [], "fails": [], "mode": "close", "sequential": False, "release_order": order, "runtime": "current"})
+    for chan in UNI_CHANS:
+        for pre in ([11], [12]):
+            for kind in ("fut_fallible", "fut"):
+                k += 1
+                cases.append({"id": "u%d_%s_s2_%s_idle%d" % (k, chan, kind, pre[0]), "fam": "uni", "chan": chan, "s": 2, "kind": kind, "timeout": False, "limit": 1,
+                              "events": [11, 12], "slow": [], "fails": [], "pre_release": pre, "runtime": "current"})
     extra = []
     for c_ in rng.sample(cases, 16 if quick else 120):
         d = dict(c_)
